@@ -249,7 +249,9 @@ def conj(xs, chunk=8):
 def harness_text(ctx, name, hname="harness"):
     """Creates argument objects (with possible aliasing among same-typed read-only batches), records every input leaf
     in an OBS_<param>_<leaf> local (so that counterexample traces carry the inputs) and calls the target."""
-    L = ["void %s(void) {" % hname, "  ll_use_libm();"]
+    L = ["void %s(void) {" % hname]
+    if ctx.isfloat or getattr(ctx, "uses_float", False):
+        L.append("  ll_use_libm();")
     call = []
     objs = {}
     obs = []   # (obs name, param index, kind, offset, nbytes, leafkind)
